@@ -12,6 +12,7 @@ UNITS = {
     'TXN': dict(template='txn.rs', rlimit=30),
     'SERHDR': dict(template='serhdr.rs', rlimit=30),
     'SESSENG': dict(template='sesseng.rs', rlimit=40),
+    'CONNENG': dict(template='conneng.rs', rlimit=40),
 }
 
 COMMON_TRUSTED = [
@@ -73,7 +74,7 @@ PROPS = {
         level_text='BOUNDED stand-in only: Kani/CBMC explores every byte string up to the stated length for each listed type on the real serde_amqp crate with overflow checks and unwinding assertions on. Nothing here is counted as proved; recursion depth, allocation size and progress are not decided.',
         assumptions=['bounded: input length <= 3 bytes per harness (all strings)', 'stack depth, allocation proportional to input, no-loop-without-consuming are NOT decided (a CBMC run cannot bound the real process)', 'structure-aware corruptions of longer encodings are covered only by the thorough-tier compound-header harnesses']),
     'C06': dict(
-        units=['FRAMEENC', 'FRAMEDEC'], kani=[], level='proof', title='Frames on the wire',
+        units=['FRAMEENC', 'FRAMEDEC', 'CONNENG'], kani=[], level='proof', title='Frames on the wire',
         lemmas={'FRAMEENC': ['lemma_expected_properties', 'lemma_cut_points', 'lemma_mids_payload', 'lemma_mids_sizes', 'lemma_flatten_append', 'lemma_payloads_append']},
         assumptions=[
             'precondition fits(): the transfer performative alone (in each of its three forms) is smaller than the frame body; a larger one is outside the contract (usize underflow / no progress)',
@@ -82,7 +83,7 @@ PROPS = {
             'non-transfer performatives larger than the frame are cut into pseudo-frames by start_send: see known finding / DESIGN D9 (not decided by a contract here)',
             'decoding under arbitrary read fragmentation is tokio_util LengthDelimitedCodec + FramedRead (third party), not verified']),
     'C01': dict(
-        units=['FRAMEENC', 'SESSION', 'SENDSPLIT', 'LINK', 'REASM', 'SESSENG'],
+        units=['FRAMEENC', 'SESSION', 'SENDSPLIT', 'LINK', 'REASM', 'SESSENG', 'CONNENG'],
         lemmas={'SENDSPLIT': ['lemma_link_expected', 'lemma_link_mids'], 'FRAMEENC': ['lemma_expected_properties', 'lemma_mids_payload']}, kani=[], level='proof', title='End-to-end delivery (sequential stages only)',
         assumptions=[ASYNC, ENGINE,
             'only the sequential stages are under contract: session hold-back/stamping (SESSION) and frame splitting (FRAMEENC); link-level split, reassembly and the codec round trip are separate units where built',
@@ -103,14 +104,15 @@ PROPS = {
             'ReceiverLink::on_complete_transfer calling consume(1) before building the delivery, ReceiverInner::update_credit_if_auto and set_credit are not under contract yet',
             'the overrun error being turned into a detach frame by the link/engine is not verified']),
     'C12': dict(
-        units=['CONN'], kani=[], level='proof', title='Connection lifecycle',
+        units=['CONN', 'CONNENG'],
+        lemmas={'CONNENG': ['lemma_extc_trans']}, kani=[], level='proof', title='Connection lifecycle',
         assumptions=[ASYNC,
             'that the connection engine event loop (select!) drives only these transition functions, and calls send_open/send_close once each, is not verified',
             'send_open / send_close put the frame on the wire before checking the state (an illegal-state call still emits a frame): "at most once" therefore rests on the engine calling them only in the states listed in the contract',
             'header-before-open (transport protocol-header exchange), a peer close always being answered, handle results, EOF handling and flushing of queued frames are liveness/glue and are NOT decided',
-            'the DISCARDING prefix of ConnectionEngine::on_incoming is not under contract yet']),
+            'ConnectionEngine::{on_incoming,on_outgoing_session_frames,on_heartbeat,forward_to_session} are under contract (unit CONNENG) against a stand-in connection endpoint carrying the CONN contracts; close_connection / wait_for_remote_close / on_control / on_error / event_loop (select!) are not']),
     'C17': dict(
-        units=['CONN'], kani=[], level='proof', title='Negotiated limits (channel-max part)',
+        units=['CONN', 'CONNENG', 'FRAMEDEC'], kani=[], level='proof', title='Negotiated limits (channel-max part)',
         assumptions=[
             'ONLY channel-max is decided. The idle time-out sentences (heartbeats within the peer\'s idle-time-out, local time-out teardown) are timed behaviour of tokio Interval/Sleep and have no contract here (no clock in either verifier) -- see DESIGN D10',
             'slab::Slab modelled as a partial map whose vacant key is unoccupied']),
@@ -131,7 +133,7 @@ PROPS = {
             'commit_transaction that fails midway (inner session error) has already handed on a prefix of the posts: the contract only covers r is Ok',
             'NOT DECIDED: the coordinator link (TxnCoordinator event loop, abort on Drop / controlling link going away), the controller side (Transaction / OwnedTransaction putting txn-id and fail flag on the wire), several concurrent control links']),
     'C11': dict(
-        units=['SESSION', 'FRAMEENC', 'CONN', 'SENDSPLIT'],
+        units=['SESSION', 'FRAMEENC', 'CONN', 'SENDSPLIT', 'CONNENG'],
         lemmas={'SENDSPLIT': ['lemma_link_expected'], 'FRAMEENC': ['lemma_expected_properties']}, kani=[], level='proof', title='Identifiers',
         assumptions=[ASYNC, ENGINE,
             'fewer than 2^32 link handles are live in one session (handle = slab key as u32)',
@@ -144,7 +146,7 @@ PROPS = {
             'answered-no-later-than / returns-only-after clauses of the property are liveness statements and are not decided',
             'Drop impls racing with the engine are not decided']),
     'C15': dict(
-        units=['SESSION', 'CONN', 'FRAMEDEC', 'LINK'], kani=[], level='proof', title='Misbehaving peer',
+        units=['SESSION', 'CONN', 'FRAMEDEC', 'LINK', 'CONNENG'], kani=[], level='proof', title='Misbehaving peer',
         assumptions=[ASYNC, ENGINE,
             'never-blocks-forever and isolation between connections are not decided',
             'handlers of peer input carry no precondition on the peer-controlled arguments']),
